@@ -3,7 +3,7 @@
    (join xor  <x> <y> <lcols> <rcols> <mode> [spelling])   -> ok (T <result> <x> <y>)
    (join listby <keys>)                                     -> ok (L (T key (L ids))*)
    tables  `(D (hexcol (L cell*))*)`;  lcols/rcols  `N | (L spec*)`, spec = `S:hex` | `(fn id S:hex)` |
-   `(fn dbl S:hex)` | `(fn const)`;  mode `mN | ml<spelling> | mr<spelling> | (mf fst|snd|swap|lst)`.
+   `(fn dbl S:hex)` | `(fn const)`;  mode `mN | ml0 | mlS | mlL | mr1 | mrS | mrR | (mv <cell>) | (mf fst|snd|swap|lst)`.
    The trailing spelling atom (how lcols/rcols are written in Python: str / list / tuple) is ignored
    by the model: `as_tuple` normalises it. -/
 import PygModel.Join
@@ -55,12 +55,21 @@ def specsOf : Sexp → Option (Option (List KeySpec))
   | .node (.atom "L" :: xs) => (xs.mapM specOf).map some
   | _ => Option.none
 
-def modeOf : Sexp → Option Mode
+/-- the python value a mode atom stands for.  The legacy atoms are the table `PY_MODES` of harness/pv/props/c02.py
+(`mN` None, `ml0` 0, `mlS` 'l', `mlL` 'left', `mr1` 1, `mrS` 'r', `mrR` 'RHS'); `(mv <cell atom>)` carries ANY scalar
+(`True`, `1.0`, `'Left'`, `'x'`, `2`, …); `(mf name)` a callable of the menu.  What the value MEANS is decided by
+`Mode.ofPy` / `Mode.xorOfPy` of the model (theorems `mode_left_iff` … in Props/C02.lean), not here. -/
+def pyModeOf : Sexp → Option PyMode
   | .atom s =>
-    if s == "mN" then some .pair
-    else if s.startsWith "ml" then some .left
-    else if s.startsWith "mr" then some .right
+    if s == "mN" then some (.val .none)
+    else if s == "ml0" then some (.val (.int 0))
+    else if s == "mlS" then some (.val (.str "l"))
+    else if s == "mlL" then some (.val (.str "left"))
+    else if s == "mr1" then some (.val (.int 1))
+    else if s == "mrS" then some (.val (.str "r"))
+    else if s == "mrR" then some (.val (.str "RHS"))
     else Option.none
+  | .node [.atom "mv", .atom a] => (Cell.parse a).map .val
   | .node [.atom "mf", .atom f] =>
     if f == "fst" then some (.fn fun a _ => .cell a)
     else if f == "snd" then some (.fn fun _ b => .cell b)
@@ -69,12 +78,9 @@ def modeOf : Sexp → Option Mode
     else Option.none
   | _ => Option.none
 
-/-- `mode = 1 if (is_str(mode) and mode[0].lower() == 'r') or mode == 1 else 0` (line 1215): everything that is not
-'r…' / 1 — `None` and callables included — means the left table -/
-def xorModeOf : Sexp → Option Nat
-  | .atom s => if s.startsWith "ml" || s == "mN" then some 0 else if s.startsWith "mr" then some 1 else Option.none
-  | .node [.atom "mf", .atom _] => some 0
-  | _ => Option.none
+def modeOf (s : Sexp) : Option Mode := (pyModeOf s).bind Mode.ofPy
+
+def xorModeOf (s : Sexp) : Option Nat := (pyModeOf s).bind Mode.xorOfPy
 
 def vtableVal (t : VTable) : Val := .dict (t.map fun c => (c.1, .list c.2))
 
